@@ -32,6 +32,8 @@ ENGINES = [
      "kind_free_text": "repetition: each generated case 13x on fresh WAFs; all outcomes equal each other and the Lean model"},
     {"name": "auditiso", "path": "go/cmd/corr/audit.go", "serves_properties": ["C05"],
      "kind_free_text": "history: predecessor changing audit engine/parts by ctl, then probe on one WAF with a real audit log; the probe's record vs the Lean model on a fresh state"},
+    {"name": "rxm", "path": "go/cmd/corr/rxm.go", "serves_properties": ["C15"],
+     "kind_free_text": "differential: Go regexp on key expressions and the @rx operator vs the Lean regex model (parser + derivative matcher); capturing @rx vs Go's submatches as oracle"},
     {"name": "eng", "path": "go/cmd/corr/eng.go", "serves_properties": ["C01", "C02", "C04", "C08", "C09", "C12", "C17"],
      "kind_free_text": "differential: structured rule sets + requests + API call sequences on the real WAF vs the Lean engine model (profiles per property)"},
     {"name": "body", "path": "go/cmd/corr/body.go", "serves_properties": ["C10"],
@@ -205,9 +207,11 @@ CLAIMED = {
     "C15": dict(
         text="Lean 4 theorems: each modelled operator equals its declarative predicate for all arguments and inputs (substring/"
              "prefix/suffix, integer order on Go's Atoi with clamping, '%'-escape well-formedness, byte ranges, @pm = "
-             "ASCII-case-insensitive membership incl. the length short-circuit, negation = complement), tied to /repo by "
-             "differential execution of the real operators (`op`).",
+             "ASCII-case-insensitive membership incl. the length short-circuit, negation = complement; @ipMatch independent of the "
+             "address spelling; @rx on the modelled RE2 fragment: the matcher is exact w.r.t. a declarative match relation for every "
+             "expression and input), tied to /repo by differential execution of the real operators (`op`, `rxm`); captures TX.0-9 are "
+             "compared with Go's regexp as oracle.",
         note=_TB + "Aho-Corasick library, Go regexp (RE2) and net.IPNet are parameters/oracles with the contracts stated in "
-             "the evidence file; @rx and @ipMatch are not modelled in this engine.",
+             "the evidence file; submatch positions of @rx are not modelled.",
         ref="6/C15", engine="op"),
 }
